@@ -1,21 +1,10 @@
 import Mitx.Driver.Proto
 import Mitx.Driver.Attempt
 import Mitx.Model.Grade
+import Mitx.Model.Tree
 /-! JSON ↔ model plumbing for grader trees (trusted test infrastructure). -/
 namespace Drv
 open Lean Proto Gr
-
-/-- universal `expect` entry: a text (leaf graders) or a list of item-answer tuples (SingleListGrader) -/
-inductive UExp
-  | str (s : String)
-  | items (l : List (List (Answer UExp)))
-  deriving Inhabited
-
-/-- universal answer argument of a subgrader's `check`: item answers, or (for a nested ListGrader) a tuple of lists -/
-inductive UAny
-  | item (l : List (Answer UExp))
-  | lists (ls : List (List UAny))
-  deriving Inhabited
 
 def okOfJson' (j : Json) : Except String At.Ok := okOfJson j
 
@@ -38,27 +27,6 @@ partial def anyOfJson (isList : Bool) (j : Json) : Except String UAny :=
       | _ => false) x) al) j))
   else do pure (.item (← itemAnswersOfJson j))
 
-structure TabEntry where
-  key : String × String
-  credit : Rat
-  msg : String
-  raises : Option (Bool × String × String)     -- (is MITx class, class, message)
-
-/-- the harness-defined table-driven leaf: `check_response(answer, input)` -/
-def tableCR (tab : List TabEntry) (m : AnsMeta) (e : UExp) (inp : String) : M IRes :=
-  match e with
-  | .items _ => throw (.py "TypeError" "table grader got a list expect")
-  | .str k =>
-    match tab.find? (fun t => t.key == (k, inp)) with
-    | none => pure { ok := .no, grade := 0, msg := "" }
-    | some t =>
-      match t.raises with
-      | some (true, cls, msg) => throw (.mitx cls msg)
-      | some (false, cls, msg) => throw (.py cls msg)
-      | none =>
-        let g := t.credit * m.grade
-        pure { ok := (if t.credit == 1 then m.ok else At.gradeToOk g), grade := g, msg := (if t.credit > 0 && t.msg == "" then m.msg else t.msg) }
-
 def tabOfJson (j : Json) : Except String (List TabEntry) :=
   getList (fun e => do
     let raises ← match e.getObjVal? "raise" with
@@ -74,17 +42,17 @@ def tabOfJson (j : Json) : Except String (List TabEntry) :=
     let ms ← getStr (fieldD e "msg" (Json.str ""))
     pure ⟨(k1, k2), cr, ms, raises⟩) j
 
-/-- build an item grader's `check(answers, input)` from its JSON description -/
-partial def buildItem (j : Json) : Except String (List (Answer UExp) → String → M IRes) := do
+/-- build an item grader tree from its JSON description -/
+partial def buildItemTree (j : Json) : Except String ITree := do
   let ty ← getStr (← field j "type")
   let wrong ← getStr (fieldD j "wrong_msg" (Json.str ""))
   match ty with
   | "table" => do
       let tab ← tabOfJson (← field j "tab")
-      pure (itemCheck (tableCR tab) wrong)
+      pure (.table tab wrong)
   | "singlelist" => do
       let subj ← field j "sub"
-      let sub ← buildItem subj
+      let sub ← buildItemTree subj
       let c ← field j "cfg"
       let o1 ← getBool (← field c "ordered")
       let o2 ← getBool (← field c "length_error")
@@ -93,13 +61,13 @@ partial def buildItem (j : Json) : Except String (List (Answer UExp) → String 
       let o5 ← getStr (← field c "delimiter")
       let o6 ← getStr (← field subj "type")
       let cfg : SLCfg := ⟨o1, o2, o3, o4, o5, o6 == "singlelist"⟩
-      let cr : AnsMeta → UExp → String → M IRes := fun m e inp => match e with
-        | .items l => slCheckResponse cfg sub m l inp
-        | .str _ => throw (.py "TypeError" "singlelist grader got a text expect")
-      pure (itemCheck cr wrong)
+      pure (.singlelist cfg wrong sub)
   | _ => throw s!"unknown item grader type {ty}"
 
-partial def buildList (j : Json) : Except String (List (List UAny) → List String → M LOut) := do
+def buildItem (j : Json) : Except String (List (Answer UExp) → String → M IRes) := do
+  pure (← buildItemTree j).check
+
+partial def buildListTree (j : Json) : Except String LTree := do
   let c ← field j "cfg"
   let l1 ← getBool (← field c "ordered")
   let l2 ← getBool (← field c "partial_credit")
@@ -108,20 +76,12 @@ partial def buildList (j : Json) : Except String (List (List UAny) → List Stri
   let subsJ ← getArr (← field j "subs")
   let subs ← subsJ.mapM (fun sj => do
     let ty ← getStr (← field sj "type")
-    if ty == "list" then do
-      let f ← buildList sj
-      pure (fun (a : UAny) (g : GInput) => match a, g with
-        | .lists ls, .many l => (f ls l).map (fun o => SubRes.multi (o.entries.filterMap id))
-        | _, _ => (throw (.py "TypeError" "list subgrader needs grouped inputs and list answers") : M SubRes))
-    else do
-      let f ← buildItem sj
-      pure (fun (a : UAny) (g : GInput) => match a, g with
-        | .item l, .one s => (f l s).map SubRes.single
-        | _, _ => (throw (.py "TypeError" "item subgrader needs one text and item answers") : M SubRes)))
-  let sub : Nat → UAny → GInput → M SubRes := fun k => match subs[if subs.length == 1 then 0 else k]? with
-    | some f => f
-    | none => fun _ _ => throw (.py "IndexError" "no such subgrader")
-  pure (listCheck cfg sub)
+    if ty == "list" then do pure (STree.nested (← buildListTree sj))
+    else do pure (STree.item (← buildItemTree sj)))
+  pure (.list cfg subs)
+
+def buildList (j : Json) : Except String (List (List UAny) → List String → M LOut) := do
+  pure (← buildListTree j).check
 
 def iresToJson (r : IRes) : Json :=
   Json.mkObj [("ok", okToJson r.ok), ("grade_decimal", jRat r.grade), ("msg", Json.str r.msg)]
